@@ -238,11 +238,12 @@ def encode_float(float_number: float | None) -> int:
     return encoded_int
 
 
-def decode_number(data_raw: int, bit_offset: int, bit_length: int, signed: bool, resolution: float, min_value: float, max_value: float) -> Optional[float]:
+def decode_number(data_raw: int, bit_offset: int, bit_length: int, signed: bool, resolution: float, min_value: float, max_value: float, offset: float = 0) -> Optional[float]:
     """
     The function follows specific decoding rules based on the bit length of the number:
     - For numbers using 2 or 3 bits, the maximum value indicates the field is not present (None is returned).
     - For numbers using 4 bits or more, the maximum positive value indicates the field is not present (None is returned).
+    - Fields with an offset are stored in excess-K notation: the unsigned raw number is scaled and the offset is added.
     """
     number_int = decode_int(data_raw, bit_offset, bit_length)
 
@@ -263,6 +264,10 @@ def decode_number(data_raw: int, bit_offset: int, bit_length: int, signed: bool,
     # adjust resolution
     number_int *= resolution
 
+    # apply the offset (excess-K notation)
+    if offset != 0:
+        number_int += offset
+
     if number_int < min_value:
         raise ValueError("Value below minimum allowed")
     if number_int > max_value:
@@ -274,7 +279,8 @@ def encode_number(
     value: float | None,
     bit_length: int,
     signed: bool,
-    resolution: float
+    resolution: float,
+    offset: float = 0
 ) -> int:
     """
     Encodes a number into a bitfield within an integer.
@@ -291,6 +297,10 @@ def encode_number(
             return (1 << (bit_length - 1)) - 1
         else:
             return (1 << bit_length) - 1
+
+    # Remove the offset (excess-K notation)
+    if offset != 0:
+        value = value - offset
 
     # Scale using resolution
     number_int = int(round(value / resolution))
